@@ -131,7 +131,10 @@ pub mod fallback {
     // Returns the least non-negative remainder of `x` (mod `m`).
     #[inline]
     pub fn rem_euclid(x: f32, m: f32) -> f32 {
-        x % m + (x.is_sign_negative() as u32 as f32) * m
+        // (a remainder of zero - of an exact negative multiple of `m`, too -
+        // stays zero instead of becoming `m`)
+        let r = x % m;
+        r + ((r < 0.0) as u32 as f32) * m
     }
     /// Returns the approximate reciprocal of the square root of `x`.
     #[inline]
